@@ -33,7 +33,7 @@ def plan(tier, seed):
     c = cases.tok("cdn", s=1, fs=1, wall="box", shift=(0.003, 0.0), tag="c16-cdn-sym")
     pair(c, copy.deepcopy(c), "mirror", "symmetric cdn with itself", self_mirror=True)
     if tier == "thorough":
-        d = cases.tok("usn", s=-1, fs=-1, interp="dct", wall={"kind": "poly", "n": 14, "phase": 0.3}, guards=0, tag="c16-usn-dct", ny_inner_divertor=5, ny_outer_divertor=2)
+        d = cases.tok("usn", s=-1, fs=-1, interp="dct", wall={"kind": "poly", "n": 14, "phase": 0.3}, guards=0, tag="c16-usn-dct", ny_inner_divertor=5, ny_outer_divertor=3)
         pair(d, cases.mirror_of(d), "mirror", "mirror usn<->lsn (dct)")
         e = cases.tok("udn", s=1, fs=-1, orth=False, wall="slant", tag="c16-udn-nonorth")
         pair(e, cases.mirror_of(e), "mirror", "mirror udn<->ldn (non-orthogonal)", pos_tol=1e-7, rel_tol=1e-5)
